@@ -335,7 +335,7 @@ impl BodyGen for F32s {
     const NAME: &'static str = "f32s";
     const FLOAT: FloatMode = FloatMode::F32;
     fn gen(rng: &mut Rng) -> (Self, String) {
-        let mut one = |rng: &mut Rng| -> f32 {
+        let one = |rng: &mut Rng| -> f32 {
             match rng.below(8) {
                 0 => 0.1,
                 1 => f32::MAX,
